@@ -115,7 +115,9 @@ def r07_1(ctx: Ctx):
     definite = {
         "target_level": lambda v, r: isinstance(r, ast.Constant) or re.fullmatch(re.escape(deme_v) + r"\.(_?level)([-+]\d+)?", canon(v, defs)) is not None,
         "config": lambda v, r: isinstance(r, ast.Constant) or canon(v, defs).startswith(f"{selfn}.config.levels["),
-        "metaepoch_count": lambda v, r: isinstance(r, ast.Constant),
+        # the tree's counter combined with another quantity of the run (`counter - parent.started_at`): a different number
+        # whenever that quantity is not zero
+        "metaepoch_count": lambda v, r: isinstance(r, ast.Constant) or (isinstance(r, ast.BinOp) and isinstance(r.op, (ast.Add, ast.Sub)) and any(canon(x) == f"{selfn}.metaepoch_count" for x in (r.left, r.right)) and any(isinstance(y, ast.Attribute) and y.attr in ("started_at", "_started_at", "metaepoch_count", "level", "_level", "height") for x in (r.left, r.right) if canon(x) != f"{selfn}.metaepoch_count" for y in ast.walk(x))),
         "sprout_seed": lambda v, r: isinstance(r, (ast.Constant, ast.Name, ast.Attribute, ast.Subscript)),
         "parent_deme": lambda v, r: isinstance(r, (ast.Constant, ast.Name, ast.Attribute, ast.Subscript)),
         "new_id": lambda v, r: isinstance(r, ast.Constant) or (isinstance(r, ast.Call) and norm(r.func) == f"{selfn}._next_child_id"),
@@ -246,6 +248,7 @@ def r07_2(ctx: Ctx):
             suffix_ok = False
             obs.append(ctx.ob("R07.2", f, r, status=INCONCLUSIVE, detail=f"cannot take the child id `{norm(v)[:80]}` apart into prefix and suffix"))
             continue
+        pieces = [(k, (x.args[0] if k == "expr" and isinstance(x, ast.Call) and norm(x.func) == "str" and len(x.args) == 1 and not x.keywords else x)) for k, x in pieces]
         exprs = [x for k, x in pieces if k == "expr"]
         lits = "".join(x for k, x in pieces if k == "lit")
         sfx = None
@@ -350,6 +353,26 @@ def r07_3(ctx: Ctx):
         else:
             st = INCONCLUSIVE
     obs.append(ctx.ob("R07.3", f, idx[0] if idx else f.node, status=st, detail="engine class = registry[type(config)]" if st == OK else ("the engine is chosen by the first isinstance() match in table order, not by the exact class of the level config (a derived config class gets its base class's engine)" if (not idx and isinst) else "the engine is not looked up by type(config) in a table containing the built-in registry") if st == VIOLATION else "cannot find the registry lookup by type(config)", construct="lookup"))
+    # the built-in registry is process-wide: a run that writes into it decides the engines of every later tree
+    MUTS = ("setdefault", "update", "pop", "popitem", "clear", "__setitem__", "__delitem__")
+    wr = None
+    for g in P.all_functions():
+        for n in body_walk(g.node):
+            tgt = None
+            if isinstance(n, ast.Call) and isinstance(n.func, ast.Attribute) and n.func.attr in MUTS:
+                tgt = n.func.value
+            elif isinstance(n, (ast.Assign, ast.AugAssign, ast.Delete)):
+                for t_ in (n.targets if isinstance(n, (ast.Assign, ast.Delete)) else [n.target]):
+                    if isinstance(t_, ast.Subscript):
+                        tgt = t_.value
+                    elif isinstance(n, ast.AugAssign):
+                        tgt = t_
+            if tgt is not None and norm(tgt).split(".")[-1] == "CONFIG_CLASS_TO_DEME_CLASS" and g.name != "<module>" and wr is None:
+                wr = (g, n)
+    if wr is not None:
+        obs.append(ctx.ob("R07.3", wr[0], wr[1], status=VIOLATION, detail=f"{wr[0].short} writes into the process-wide registry (`{norm(wr[1])[:80]}`): one tree's custom config -> engine mapping stays registered for every later tree, whose demes are then not of the engine ITS configuration names", construct="registry-written"))
+    else:
+        obs.append(ctx.ob("R07.3", f, f.node, detail="nothing in pyhms writes into the built-in registry; custom mappings are merged per call", construct="registry-read-only"))
     # the looked-up class is instantiated with the init args built from the parameters
     dia = [c for c in body_walk(f.node) if isinstance(c, ast.Call) and norm(c.func) == "DemeInitArgs"]
     if len(dia) != 1:
@@ -462,6 +485,12 @@ def r07_5(ctx: Ctx):
     for k, alts in want.items():
         v = _kw(c, k)
         t = canon(v, defs) if v is not None else None
+        # an attribute of the tree that the constructor has just set to a constant (self.metaepoch_count = 0) is that constant
+        if v is not None and is_self_attr(_resolve(v, defs), None, selfn):
+            av = _resolve(v, defs)
+            sets = [n for n in body_walk(f.node) if isinstance(n, (ast.Assign, ast.AnnAssign)) and getattr(n, "value", None) is not None and any(is_self_attr(tg_, av.attr, selfn) for tg_ in (n.targets if isinstance(n, ast.Assign) else [n.target]))]
+            if len(sets) == 1 and isinstance(sets[0].value, ast.Constant) and getattr(sets[0], "_ord", 0) < getattr(c, "_ord", 1 << 30):
+                t = canon(sets[0].value)
         alts_c = tuple(a.replace(" ", "") for a in alts)
         if t is not None and (t in alts_c or t.replace('"', "'") in alts_c):
             st = OK
